@@ -89,6 +89,21 @@ def build_harness(profile='debug', features=(), hooks=False, variant='', no_defa
     return False, out
 
 
+def build_revme():
+    """revme (the repository's own state-test runner) built from /repo's current tree, for the official vectors (C01)."""
+    env = dict(ENV, CARGO_TARGET_DIR=HARNESS + '/target-revme')
+    out = ''
+    with Lock('cargo-revme'):
+        for attempt in range(3):
+            rc, out = sh(['cargo', 'build', '--offline', '-p', 'revme', '--profile', 'ethtests'], cwd='/repo', timeout=6000, env=env)
+            if rc == 0:
+                return True, out
+            if 'SIGABRT' in out or 'signal: 6' in out or 'signal: 9' in out or 'SIGSEGV' in out:
+                continue
+            break
+    return False, out
+
+
 def _lock_for_harness():
     # the harness has no dependency beyond /repo's crates, so /repo's lock file pins everything
     base = open('/repo/Cargo.lock').read()
@@ -276,8 +291,15 @@ def run_check(cfg, tier, seed, only=None):
                 errs = '\n'.join([l for l in out.splitlines() if l.startswith('error') or '-->' in l][:40])
                 res.violate('harness-build', 'the verification harness no longer compiles against /repo (%s profile): '
                             'the correspondence for %s cannot be established' % (prof, pid), detail=errs or out[-3000:])
+    for drv in cfg.get('drivers', []):
+        if drv.get('needs_revme') and 'revme' not in builds:
+            ok_r, out_r = build_revme()
+            builds['revme'] = ok_r
+            if not ok_r:
+                errs = '\n'.join([l for l in out_r.splitlines() if l.startswith('error') or '-->' in l][:40])
+                res.violate('harness-build', 'revme (the state-test runner of /repo) no longer builds: the official vectors cannot be run', detail=errs or out_r[-3000:])
     # 2. reflection tables
-    if cfg.get('gen') and all(builds.values()):
+    if cfg.get('gen') and all(v for k, v in builds.items() if k != 'revme'):
         ok, out = reflect()
         if not ok:
             res.violate('reflect', 'reflection of finite tables from the compiled code failed', detail=out[-3000:])
@@ -344,6 +366,8 @@ def run_check(cfg, tier, seed, only=None):
         for prof in profiles:
             key = (prof, tuple(drv.get('features', ())), drv.get('hooks', False), drv.get('variant', ''))
             if not builds.get(key):
+                continue
+            if drv.get('needs_revme') and not builds.get('revme'):
                 continue
             mod = drv['module']
             corr_vo = os.path.join(COQ, 'Corr', mod + '.vo')
